@@ -435,15 +435,24 @@ async def level2(sh, rig, r, regime, label):
     blackout = {"on": False}
 
     def fault(d):
-        if blackout["on"]:
+        if blackout["on"] is True:
             return []
+        if blackout["on"] == "pings" and d.verb == "APING" and d.dir == "s2c":
+            return []  # only the ping answers are lost: everything else still gets through
         return None
 
     w.net.fault = fault
     users = []
     phases = [("healthy", r.choice([5, 30, 70])), ("blackout", r.choice([20, 150, 400])), ("healthy", r.choice([10, 140]))]
+    if r.random() < 0.4:
+        phases[1] = ("ping-outage", r.choice([150, 300, 400]))
+    from geckolib.driver import GeckoPartialStatusBlockProtocolHandler as _P
+    from vlib.rig import CLIENT_ID as _CID
+    from vlib.rig import SPA_ID as _SID
+
+    _parms = (rig.transport.local[0], rig.transport.local[1], _CID, _SID)
     for name, dur in phases:
-        blackout["on"] = name == "blackout"
+        blackout["on"] = True if name == "blackout" else ("pings" if name == "ping-outage" else False)
         t_end = w.now + dur
         sh.see("phases", name)
         switch_at = w.now + r.choice([3.0, 6.0, 15.0]) if (name == "blackout" and r.random() < 0.6) else None
@@ -458,6 +467,15 @@ async def level2(sh, rig, r, regime, label):
                 set_config_mode(GeckoConfig.PING_FREQUENCY_IN_SECONDS >= 10)
                 switch_at = None
                 sh.count("profile_switches_during_an_outage")
+            if name == "ping-outage" and r.random() < 0.5:
+                # the spa goes on pushing status (a top-side key press, another client's command)
+                pos_ = r.randrange(300, 400)
+                ch_ = [(pos_, bytes([r.randrange(256), r.randrange(256)]))]
+                b_ = bytearray(rig.sim.block)
+                b_[pos_ : pos_ + 2] = ch_[0][1]
+                rig.sim.set_block(bytes(b_))
+                rig.sim.say(_P.report_changes(rig.sim.sock, ch_, parms=_parms), _parms)
+                sh.count("status_pushed_while_pings_go_unanswered")
             k = r.choice(["press", "set", "getwc", "rem", "none"])
             if k == "press":
                 users.append(asyncio.ensure_future(spa.async_press(r.choice([1, 2, 16]))))
